@@ -135,6 +135,12 @@ Tape::Handle IntervalEvaluator::push(const Tape::Handle& tape)
             {
                 return Tape::KEEP_A;
             }
+            // A branch that may be NaN can't be pruned (or kept alone) based
+            // on its bounds: min / max of a NaN depends on operand order
+            else if (!i[a].isSafe() || !i[b].isSafe())
+            {
+                return Tape::KEEP_BOTH;
+            }
             else if (i[a].lower() > i[b].upper())
             {
                 return Tape::KEEP_A;
@@ -150,6 +156,10 @@ Tape::Handle IntervalEvaluator::push(const Tape::Handle& tape)
             if (a == b)
             {
                 return Tape::KEEP_A;
+            }
+            else if (!i[a].isSafe() || !i[b].isSafe())
+            {
+                return Tape::KEEP_BOTH;
             }
             else if (i[a].lower() > i[b].upper())
             {
